@@ -9,6 +9,7 @@ package services
 // key it was asked for (the constructor is proved in utils/queue).
 //@ func Initialize.func1
 //@   prop C10
+//@   requires[window-length-validated-positive] queueKey.Strategy.WindowSize > 0
 //@   modifies now
 //@   allocates DelayedPriorityQueue, map, ContextLogger
 //@   ensures[a-queue-with-the-strategy-of-the-key-asked-for] typeis(result, *queue.DelayedPriorityQueue) && result.(*queue.DelayedPriorityQueue) != nil && result.(*queue.DelayedPriorityQueue).strategy == queueKey.Strategy
